@@ -4,6 +4,7 @@ import NutsModel.C08.Codec
 import NutsModel.C08.Drop
 import NutsModel.C08.Metric
 import NutsModel.C08.Phases
+import NutsModel.C08.RepairFault
 import NutsModel.Facts.C08
 open Lean Nuts.Drv Nuts.C08 Nuts
 
@@ -176,6 +177,20 @@ def codecStep (st : St) (j : Json) : Option String :=
     some s!"raw clk={clk} meta={mt} x=[{",".intercalate (xs.map fun kv => bytesHex kv.1 ++ "=" ++ bytesHex kv.2)}] i=[{",".intercalate (is.map fun kv => bytesHex kv.1 ++ "=" ++ toString (bytesDigest kv.2))}] metric={st.metric}"
   | _ => none
 
+/-- the forced schedule of the harness: outer caller's read transaction; the inner caller's whole Add; the outer
+    caller's write transaction (if its read transaction let it go on) -/
+def runBetween (st : St) (tx tx2 : Tx) (optOuter optInner : AddOpts) : Conc NB × Res Unit × Res Unit :=
+  let c0 : Conc NB := { m := { s := st.s, metric := st.metric }, pending := [] }
+  let (c1, r1) := c0.enter tx
+  let (c2, r2) := c1.enter tx2
+  let (c3, rin) : Conc NB × Res Unit := match r2 with
+    | some r => (c2, r)
+    | none => let f := c2.finish cfg (c2.pending.length - 1) optInner; (f.1, f.2.getD (.panic "no-pending-call"))
+  let (c4, rout) : Conc NB × Res Unit := match r1 with
+    | some r => (c3, r)
+    | none => let f := c3.finish cfg 0 optOuter; (f.1, f.2.getD (.panic "no-pending-call"))
+  (c4, rin, rout)
+
 def step (st : St) (j : Json) : St × List String :=
   match codecStep st j with
   | some line => (st, [line])
@@ -191,19 +206,19 @@ def step (st : St) (j : Json) : St × List String :=
     -- schedule of the two-transaction model (NutsModel/C08/Phases.lean): outer enter, inner enter + finish, outer finish
     let tx := parseTx (jObj j "tx")
     let payload := match jStr j "payload" with | "ok" => some true | "bad" => some false | _ => none
-    let opt : AddOpts := { payload := payload }
-    let c0 : Conc NB := { m := { s := st.s, metric := st.metric }, pending := [] }
-    let (c1, r1) := c0.enter tx
-    let (c2, r2) := c1.enter tx
-    let (c3, rin) : Conc NB × Res Unit := match r2 with
-      | some r => (c2, r)
-      | none => let f := c2.finish cfg (c2.pending.length - 1) opt; (f.1, f.2.getD (.panic "no-pending-call"))
-    let (c4, rout) : Conc NB × Res Unit := match r1 with
-      | some r => (c3, r)
-      | none => let f := c3.finish cfg 0 opt; (f.1, f.2.getD (.panic "no-pending-call"))
+    let (c, rin, rout) := runBetween st tx tx { payload := payload } { payload := payload }
     let tag := if resStr rin == resStr rout then resStr rout else "dup:" ++ resStr rin ++ "/" ++ resStr rout
-    ({ st with s := c4.m.s, metric := c4.m.metric },
-     [if jBool j "quiet" then tag else tag ++ " | " ++ observe c4.m.s j])
+    ({ st with s := c.m.s, metric := c.m.metric },
+     [if jBool j "quiet" then tag else tag ++ " | " ++ observe c.m.s j])
+  | "between" =>
+    -- a whole Add of `tx2` between the read transaction and the write transaction of the Add of `tx`
+    let tx := parseTx (jObj j "tx")
+    let tx2 := parseTx (jObj j "tx2")
+    let payload := match jStr j "payload" with | "ok" => some true | "bad" => some false | _ => none
+    let (c, rin, rout) := runBetween st tx tx2 { payload := payload } {}
+    let tag := s!"between {resStr rin}/{resStr rout}"
+    ({ st with s := c.m.s, metric := c.m.metric },
+     [if jBool j "quiet" then tag else tag ++ " | " ++ observe c.m.s j])
   | "add" =>
     let tx := parseTx (jObj j "tx")
     let payload := match jStr j "payload" with | "ok" => some true | "bad" => some false | _ => none
@@ -236,6 +251,8 @@ def step (st : St) (j : Json) : St × List String :=
     let r := add cfg st.s tx { payload := payload }
     let s := checkPageWith cfg lcSeen r.1
     ({ st with s := s, metric := metricAfterAdd st.metric (st.s.disk.isPresent tx.ref) r.2 }, [s!"checkRace {resStr r.2} page={s.mem.repairPage} | " ++ observe s j])
+  | "checkFail" =>
+    let s := checkPageFail cfg st.s; ({ st with s := s }, [s!"checkFail page={s.mem.repairPage} | " ++ observe s j])
   | "check" =>
     let s := checkPage cfg st.s; ({ st with s := s }, [s!"check page={s.mem.repairPage} | " ++ observe s j])
   -- ---------------- tree level
